@@ -925,6 +925,13 @@ func (fc *funcContext) translateResults(results []ast.Expr) string {
 				results[i] = fc.newIdent(fmt.Sprintf("%s[%d]", tmpVar, i), resultTuple.At(i).Type())
 			}
 		}
+		// A result that may block is evaluated in statements which precede the
+		// return statement. To keep the results in source order, the ones before
+		// it are then evaluated into variables as well.
+		preserveOrder := false
+		for i := 1; i < len(results); i++ {
+			preserveOrder = preserveOrder || fc.Blocking[results[i]]
+		}
 		values := make([]string, tuple.Len())
 		for i := range values {
 			result := fc.zeroValue(tuple.At(i).Type())
@@ -932,6 +939,11 @@ func (fc *funcContext) translateResults(results []ast.Expr) string {
 				result = results[i]
 			}
 			values[i] = snapshot(result, tuple.At(i).Type(), fc.translateImplicitConversion(result, tuple.At(i).Type()).String())
+			if preserveOrder && fc.pkgCtx.Types[result].Value == nil {
+				resultVar := fc.newLocalVariable("_result")
+				fc.Printf("%s = %s;", resultVar, values[i])
+				values[i] = resultVar
+			}
 		}
 		fc.delayedOutput = nil
 		return " [" + strings.Join(values, ", ") + "]"
